@@ -106,6 +106,17 @@ void verif_stub_iter_get_basic (DBusMessageIter *it, void *value)
 dbus_bool_t verif_stub_iter_next (DBusMessageIter *it)
 { PRE (!verif_it_end, "dbus_message_iter_next: there is a current argument"); verif_it_pos++; return nondet_bool (); }
 
+/* the literal org.freedesktop.DBus as a heap string of exactly 21 bytes (longer than the symbolic bound) */
+static void mk_dbus_vstr (VStr *s)
+{
+  static const char bus[] = "org.freedesktop.DBus"; no_vstr (s);
+  s->p = malloc (sizeof bus); __CPROVER_assume (s->p != NULL);
+#define CB(k) s->p[k] = bus[k];
+  CB (0) CB (1) CB (2) CB (3) CB (4) CB (5) CB (6) CB (7) CB (8) CB (9) CB (10) CB (11) CB (12) CB (13) CB (14) CB (15) CB (16) CB (17) CB (18) CB (19) CB (20)
+  s->len = sizeof bus - 1; s->is_dbus = 1;
+}
+/* equality of two names each of which is a symbolic string (<= REF_MAXS bytes) or that literal */
+#define NAME_EQ(a, b) (((a).is_dbus || (b).is_dbus) ? ((a).is_dbus && (b).is_dbus) : VSTR_EQ (a, b))
 #define MAXARGS (DBUS_MAXIMUM_MATCH_RULE_ARG_NUMBER + 1)
 #define OPT_VSTR(s) if (nondet_bool ()) mk_vstr (&(s)); else no_vstr (&(s))
 
@@ -117,7 +128,9 @@ void harness (void)
   g_addressed = nondet_bool () ? (DBusConnection *) &ao : (nondet_bool () ? g_sender : NULL);
   /* ---- message facts ---- */
   f_type = nondet_int ();
-  OPT_VSTR (FI); OPT_VSTR (FM); OPT_VSTR (FP); OPT_VSTR (FD);
+  OPT_VSTR (FI); OPT_VSTR (FM); OPT_VSTR (FP);
+  /* DESTINATION header: absent (broadcast), an arbitrary name (<= 8 bytes: may equal the rule's destination or not), or org.freedesktop.DBus */
+  if (nondet_bool ()) no_vstr (&FD); else if (nondet_bool ()) mk_vstr (&FD); else mk_dbus_vstr (&FD);
   g_owns_sender = nondet_bool (); g_owns_dest = nondet_bool (); g_owner_queries = 0;
   verif_argn = nondet_uint (); __CPROVER_assume (verif_argn <= REF_MAXS);
   verif_argblk = &verif_argstore[REF_MAXS - verif_argn];
@@ -130,19 +143,12 @@ void harness (void)
   __CPROVER_assume (IMP (r.flags & BUS_MATCH_MESSAGE_TYPE, r.message_type != DBUS_MESSAGE_TYPE_INVALID));  /* parser: type value is one of the four names */
   if (r.flags & BUS_MATCH_INTERFACE) mk_vstr (&RI); else no_vstr (&RI);
   if (r.flags & BUS_MATCH_MEMBER) mk_vstr (&RM); else no_vstr (&RM);
-  if (r.flags & BUS_MATCH_DESTINATION) mk_vstr (&RD); else no_vstr (&RD);
+  if (!(r.flags & BUS_MATCH_DESTINATION)) no_vstr (&RD); else if (nondet_bool ()) mk_vstr (&RD); else mk_dbus_vstr (&RD);
   if (r.flags & (BUS_MATCH_PATH | BUS_MATCH_PATH_NAMESPACE)) mk_vstr (&RP); else no_vstr (&RP);
   __CPROVER_assume (IMP (r.flags & (BUS_MATCH_PATH | BUS_MATCH_PATH_NAMESPACE), RP.len >= 1 && RP.v[0] == '/'));   /* parser: value passed _dbus_validate_path (C16.path: begins with '/') */
   if (!(r.flags & BUS_MATCH_SENDER)) no_vstr (&RS);
   else if (nondet_bool ()) mk_vstr (&RS);
-  else
-    { /* the one name longer than the symbolic bound that the matcher treats specially */
-      static const char bus[] = "org.freedesktop.DBus"; no_vstr (&RS);
-      RS.p = malloc (sizeof bus); __CPROVER_assume (RS.p != NULL); 
-#define CB(k) RS.p[k] = bus[k];
-      CB (0) CB (1) CB (2) CB (3) CB (4) CB (5) CB (6) CB (7) CB (8) CB (9) CB (10) CB (11) CB (12) CB (13) CB (14) CB (15) CB (16) CB (17) CB (18) CB (19) CB (20)
-      RS.len = sizeof bus - 1; RS.is_dbus = 1;
-    }
+  else mk_dbus_vstr (&RS);      /* the one name longer than the symbolic bound that the matcher treats specially */
   r.interface = RI.p; r.member = RM.p; r.sender = RS.p; r.destination = RD.p; r.path = RP.p;
   r.args = NULL; r.arg_lens = NULL; r.args_len = 0;
   int n = 0; no_vstr (&B);
@@ -206,7 +212,13 @@ void harness (void)
   /* path_namespace: "... the object path is either the given value, or that value followed by one or more path components." */
   _Bool c_pathns = IMP (r.flags & BUS_MATCH_PATH_NAMESPACE, FP.p != NULL && REF_PATH_IN_NS_N (FP.v, FP.len, RP.v, RP.len));
   /* destination: "Matches messages which are being sent to the given unique name." */
-  _Bool c_dest = IMP (r.flags & BUS_MATCH_DESTINATION, FD.p != NULL && (g_addressed != NULL ? g_owns_dest : VSTR_EQ (RD, FD)));
+  /* two cases.  The addressed recipient is a connection: it must own the rule's destination name.  There is no recipient
+   * connection (the bus driver, or a name nobody owns yet: ServiceUnknown / activation -- what a monitor's filter sees):
+   * the name "being sent to" is the DESTINATION header field itself, compared as a string with the rule's value
+   * (BecomeMonitor: filters are match rules evaluated on the message's header fields). */
+  _Bool c_dest_conn = IMP ((r.flags & BUS_MATCH_DESTINATION) && g_addressed != NULL, FD.p != NULL && g_owns_dest);
+  _Bool c_dest_name = IMP ((r.flags & BUS_MATCH_DESTINATION) && g_addressed == NULL, FD.p != NULL && NAME_EQ (RD, FD));
+  _Bool c_dest = c_dest_conn && c_dest_name;
   /* eavesdrop: "match rules do not match messages which have a DESTINATION field unless the match rule specifically
    * requests this ... by specifying eavesdrop='true'" */
   _Bool c_eaves = IMP (FD.p != NULL, (r.flags & BUS_MATCH_CLIENT_IS_EAVESDROPPING) != 0);
@@ -221,7 +233,8 @@ void harness (void)
   __CPROVER_assert (IMP (ret, c_member), "post1d match => member key matches");
   __CPROVER_assert (IMP (ret, c_path), "post1e match => path key matches");
   __CPROVER_assert (IMP (ret, c_pathns), "post1f match => path_namespace key matches (value itself or value followed by path components)");
-  __CPROVER_assert (IMP (ret, c_dest), "post1g match => destination key matches");
+  __CPROVER_assert (IMP (ret, c_dest_conn), "post1g.conn match, recipient is a connection => DESTINATION present and that connection owns the rule's destination name");
+  __CPROVER_assert (IMP (ret, c_dest_name), "post1g.name match, no recipient connection (bus driver / unowned name) => DESTINATION present and string-equal to the rule's destination");
   __CPROVER_assert (IMP (ret, c_eaves), "post1h match => message has no DESTINATION or the rule says eavesdrop='true'");
   __CPROVER_assert (IMP (ret && has_args, G_AT (verif_gk, n, C07_ARG_SPEC_GK (verif_rec_type, verif_rec_buf, verif_rec_len))),
                     "post2 match => every argument match (argN / argNpath / arg0namespace) is satisfied per specification");
@@ -236,7 +249,10 @@ void harness (void)
   if (!ret && verif_w >= 1) REACH ("arg-mismatch");
   if (!ret && verif_w < 0 && !has_args) REACH ("header-mismatch");
   if (ret && (r.flags & BUS_MATCH_PATH_NAMESPACE) && FP.len > RP.len && RP.len > 1) REACH ("match-path-namespace");
-  if (ret && (r.flags & BUS_MATCH_DESTINATION)) REACH ("match-destination");
+  if (ret && (r.flags & BUS_MATCH_DESTINATION) && g_addressed) REACH ("match-destination-owner");
+  if (ret && (r.flags & BUS_MATCH_DESTINATION) && !g_addressed && !RD.is_dbus) REACH ("match-destination-unowned-name");
+  if (ret && (r.flags & BUS_MATCH_DESTINATION) && !g_addressed && RD.is_dbus) REACH ("match-destination-bus-driver");
+  if (!ret && verif_w < 0 && (r.flags & BUS_MATCH_DESTINATION) && !g_addressed && RD.is_dbus && FD.p && !FD.is_dbus && c_type && c_sender && c_iface && c_member && c_path && c_pathns && c_eaves) REACH ("rule-for-bus-driver-does-not-match-other-destination");
   if (ret && (r.flags & BUS_MATCH_SENDER) && g_sender) REACH ("match-sender");
   if (ret && (r.flags & BUS_MATCH_SENDER) && !g_sender) REACH ("match-sender-bus-driver");
   if (ret && verif_gk_set && verif_gk_kind == REF_ARG_PATH && verif_rec_len > B.len) REACH ("match-argpath-rule-is-prefix");
